@@ -148,6 +148,7 @@ static int imports_obj_symbol_table_lookup_by_name(
   const uint8_t *symbol_string_table,
   int symbol_string_table_size,
   const char *symbol,
+  int text_index,
   uint32_t *offset,
   uint32_t *function_size)
 {
@@ -170,7 +171,11 @@ static int imports_obj_symbol_table_lookup_by_name(
     imports_obj_elf_print_symbol32(elf_symbol32, name);
 #endif
 
-    if (st_size != 0 && strcmp(name, symbol) == 0)
+    // st_value is an offset into the section the symbol is defined in: only
+    // symbols of .text can be copied from .text.
+    int st_shndx = get_int16_le(elf_symbol32->st_shndx);
+
+    if (st_size != 0 && st_shndx == text_index && strcmp(name, symbol) == 0)
     {
       *function_size = st_size;
       *offset = get_int32_le(elf_symbol32->st_value);
@@ -321,6 +326,7 @@ int imports_obj_find_code_from_symbol(
   int symbol_string_table_size = 0;
   uint32_t text_offset = 0;
   uint32_t text_size = 0;
+  int text_index = -1;
 
   // Point to strtab for section names.
   int e_shstrndx = get_int16_le(elf_header->e_shstrndx);
@@ -361,6 +367,7 @@ int imports_obj_find_code_from_symbol(
     {
       text_offset = sh_offset;
       text_size = sh_size;
+      text_index = i;
     }
 
     ptr += section_size;
@@ -376,6 +383,7 @@ int imports_obj_find_code_from_symbol(
       symbol_string_table,
       symbol_string_table_size,
       symbol,
+      text_index,
       &offset,
       function_size);
 
